@@ -385,6 +385,42 @@ pub fn run(cx: &mut Cx) {
         }
     }
 
+    // (b4) the count ladder: 2^8 and 2^16 components (names, "..", "." and empty
+    // ones), a few less and a few more - a component count kept in a u8 / u16
+    // wraps there and "65538 names" looks like "2 names"
+    if matches!(cx.tier, Tier::Quick | Tier::Thorough) {
+        let mut li = 0u64;
+        for base in [256usize, 65_536, 131_072] {
+            for d in 0..=4usize {
+                let k = base - 2 + d;
+                li += 1;
+                if !cx.mine(li) {
+                    continue;
+                }
+                let forms = [
+                    format!("{}a", "a/".repeat(k - 1)),
+                    format!("{}cat/pkg", "../".repeat(k)),
+                    format!("{}cat/pkg", "./".repeat(k)),
+                    format!("../../{}cat/pkg", "./".repeat(k)),
+                    format!("cat/{}pkg", "./".repeat(k)),
+                    format!("cat{}pkg", "/".repeat(k)),
+                    format!("../../cat/pkg{}", "/.".repeat(k)),
+                    format!("{}../../cat/pkg", "a/".repeat(k)),
+                ];
+                for s in forms {
+                    cx.check(
+                        || format!("count ladder: {k} repeated components, path of {} bytes starting {:?}", s.len(), &s[..s.len().min(24)]),
+                        |ev| {
+                            ev.count("workload/count-ladder");
+                            check_path_inner(ev, &s)?;
+                            check_depend(ev, &format!("foo-[0-9]*:{s}"))
+                        },
+                    );
+                }
+            }
+        }
+    }
+
     // (c) Depend: every pattern x path x colon form
     let stride = if cx.tier == Tier::Mini { 24u64 } else { 1 };
     let mut i = 0u64;
